@@ -29,6 +29,10 @@ def cases(tier, rng):
     for c in (["tcp", "ws", "kcp"] if thorough else ["tcp"]):
         line = "c14 %s %d refused" % (c, n)
         cs.append({"line": line, "key": line, "model": False, "tags": {"carrier": c, "n": n, "mode": "refused"}})
+    for c in (["tcp", "tcp-starttls"] if thorough else ["tcp"]):      # (the carriers whose physical connection runs through the cutting relay)
+        for mode in ("cut-open", "garbage-open"):
+            line = "c14 %s %d %s" % (c, n, mode)
+            cs.append({"line": line, "key": line, "model": False, "tags": {"carrier": c, "n": n, "mode": mode}})
     cs.append({"line": "c14 tcp 1 read-timeout", "key": "c14 read-timeout", "model": False, "tags": {"carrier": "memory", "n": 1, "mode": "read-timeout"}})
     if thorough:
         cs.append({"line": "c14 tcp 500 app-closes", "key": "c14 tcp 500", "tags": {"carrier": "tcp", "n": 500, "mode": "app-closes"}})
@@ -61,6 +65,17 @@ def oracle(case, impl):
             out.append(("session-not-ended;mode=read-timeout", "the server kept servicing a session whose carrier only returns errors: " + impl))
         if pr["ok"] != 1:
             out.append(("connections-failed", "the warm-up connection did not work: " + impl))
+        return out
+    if t["mode"] in ("cut-open", "garbage-open"):
+        rel, of = int(p[p.index("released") + 1]), int(p[p.index("of") + 1])
+        if of < t["n"] * 0.9:
+            out.append(("connections-failed", "only %d of %d logical connections could be opened" % (of, t["n"])))
+        if rel < of:
+            out.append(("open-connections-not-released;mode=" + t["mode"], "the physical session ended abruptly with %d logical connections open; %d of their targets were never told (%s)" % (of, of - rel, case["line"])))
+        if pr["g"][2] - pr["g"][0] > max(4, of // 3):
+            out.append(("goroutine-growth", "goroutines went from %d to %d after the abrupt end with %d connections open" % (pr["g"][0], pr["g"][2], of)))
+        if pr["fd"][1] - pr["fd"][0] > max(4, of // 3):
+            out.append(("fd-growth", "file descriptors went from %d to %d after the abrupt end with %d connections open" % (pr["fd"][0], pr["fd"][1], of)))
         return out
     if t["mode"] == "target-closes-wait" and "eof" in p and int(p[p.index("eof") + 1]) < 2 * t["n"]:
         out.append(("no-eof-to-application;carrier=" + t["carrier"], "the service hung up on %d connections, the application was told on %s of them (%s)" % (2 * t["n"], p[p.index("eof") + 1], case["line"])))
